@@ -158,9 +158,20 @@ def cargo_build():
     return p.returncode, p.stdout
 
 
+def modelled_fields():
+    """names of the field types the Lean registry models (asked from the compiled driver, so the two cannot drift)"""
+    exe = os.path.join(LEAN, ".lake", "build", "bin", "driver")
+    try:
+        p = subprocess.run([exe], input="fldlist\n", stdout=subprocess.PIPE, text=True, timeout=60)
+        return p.stdout.strip()
+    except Exception:
+        return ""
+
+
 def run_harness(stream, tier, seed, outdir, extra=()):
     os.makedirs(outdir, exist_ok=True)
     exe = os.path.join(HARNESS, "target", "release", "swiftmt-harness")
+    extra = [modelled_fields() if x == "@modelled" else x for x in extra]
     cmd = [exe, stream, "--tier", tier, "--seed", str(seed), "--out", outdir] + list(extra)
     t = time.time()
     try:
@@ -275,7 +286,7 @@ def run_check(pid, tier, seed, replay=None):
             eff_tier = "thorough"   # directed search: a tie broke, look harder for a failing input
         for stream in cfg["streams"]:
             sd = os.path.join(rundir, stream)
-            extra = ["--replay", replay] if replay else []
+            extra = (["--replay", replay] if replay else []) + list(cfg.get("stream_args", {}).get(stream, []))
             r = run_harness(stream, eff_tier, seed, sd, extra)
             reports.append(r)
             if r.get("crashed"):
@@ -302,7 +313,8 @@ def run_check(pid, tier, seed, replay=None):
             rp = os.path.join(rundir, f"known_{k['id']}.json")
             with open(rp, "w") as f:
                 json.dump({"property": pid, "witness": k["replay"]["witness"], "finding_key": k["replay"].get("key")}, f)
-            r = run_harness(k["replay"]["stream"], "quick", seed, os.path.join(rundir, "known_" + k["id"]), ["--replay", rp])
+            r = run_harness(k["replay"]["stream"], "quick", seed, os.path.join(rundir, "known_" + k["id"]),
+                            ["--replay", rp] + list(cfg.get("stream_args", {}).get(k["replay"]["stream"], [])))
             still = [key for key in r.get("failures", {}) if key == k["key"] or fnmatch.fnmatchcase(key, k["key"])]
             if still:
                 hits.setdefault(k["id"], {"finding": k, "keys": []})["keys"].extend(still)
